@@ -270,6 +270,8 @@ func runC01(args []string) int {
 	sb.WriteString("Definition mism_g16 := Eval vm_compute in gmismatches 0 cases.\nPrint mism_g16.\n")
 	writeFile(o.Out, "cases_C01.v", sb.String())
 	rep.CoqCases = len(coqCases)
+	// every supported curve: each group element of a genuine proof replaced in memory
+	allCurvesGroth16(o, rep)
 	rep.Write(o.Out)
 	return 0
 }
